@@ -276,7 +276,9 @@ impl AsyncReader {
     }
 
     fn is_done_requesting(&self) -> bool {
-        self.request_index == self.total_pages
+        // Only pages whose numbers are already known can be requested: the cell holds the first
+        // ones, the rest are discovered while parsing completed pages.
+        self.request_index == self.pages.len()
     }
 
     fn is_done(&self) -> bool {
